@@ -226,7 +226,13 @@ func runPostOps(sc *bw.Scenario, book *simkit.TapeBook, w *world, cl *closure, r
 			}
 			out.Probe("reopened")
 		case "ship":
-			runShip(sc, book, cl, res, orig, log, out)
+			runShip(sc, book, cl, res, orig, log, out, sc.PipeBreak, "/w/extracted")
+			if sc.PipeBreak > 0 {
+				// the caller tries again over a healthy connection: what the failed attempt
+				// left behind anywhere in the process must not show in this one
+				runShip(sc, book, cl, res, orig, log, out, 0, "/w/extracted-retry")
+				out.Probe("shipped-again-after-broken-pipe")
+			}
 		case "corrupt":
 			runCorrupt(sc, cl, res, out)
 		case "torn":
@@ -236,15 +242,14 @@ func runPostOps(sc *bw.Scenario, book *simkit.TapeBook, w *world, cl *closure, r
 }
 
 // runShip streams WriteArchive into ExtractArchive as two scheduled tasks over a SimPipe.
-func runShip(sc *bw.Scenario, book *simkit.TapeBook, cl *closure, res *vresult, orig []string, log *simkit.Log, out *simkit.Outcome) {
+func runShip(sc *bw.Scenario, book *simkit.TapeBook, cl *closure, res *vresult, orig []string, log *simkit.Log, out *simkit.Outcome, breakAt int, dst string) {
 	root := res.r.target
-	dst := "/w/extracted"
 	os.MkdirAll(dst, 0o755)
 	realDst := dst
 	if sc.LinkRoots {
 		// the caller names the destination by way of a symbolic link
 		os.Remove("/w/extracted-link")
-		if os.Symlink("extracted", "/w/extracted-link") == nil {
+		if os.Symlink(filepath.Base(dst), "/w/extracted-link") == nil {
 			dst = "/w/extracted-link"
 			defer os.Remove("/w/extracted-link")
 		}
@@ -256,7 +261,7 @@ func runShip(sc *bw.Scenario, book *simkit.TapeBook, cl *closure, res *vresult, 
 	normaliseTimes(root)
 	sched := book.NewSched(log, sc.Seed, "bw/ship", "random")
 	pipe := simkit.NewSimPipe(sc.PipeCap, sched, log)
-	pipe.BreakAt = sc.PipeBreak
+	pipe.BreakAt = breakAt
 	var werr, rerr error
 	var wpan, rpan interface{}
 	var b2 *sourcebundle.Bundle
@@ -295,14 +300,14 @@ func runShip(sc *bw.Scenario, book *simkit.TapeBook, cl *closure, res *vresult, 
 		out.Fault("pipe/break", 1)
 		if werr == nil {
 			for _, prop := range []string{"C09", "C12"} {
-				out.Violate(prop, "archive-write-error-swallowed", "swallowed", fmt.Sprintf("the pipe broke after %d bytes under WriteArchive, which returned nil", sc.PipeBreak))
+				out.Violate(prop, "archive-write-error-swallowed", "swallowed", fmt.Sprintf("the pipe broke after %d bytes under WriteArchive, which returned nil", breakAt))
 			}
 		}
 		if rerr == nil && b2 != nil {
 			// legitimate only if the break came after everything the receiver needs
 			// (behind the end-of-archive marker): then what arrived must be complete
 			if d := diffLists(orig, fingerprint(b2, dst, sc, cl)); d != "" {
-				out.Violate("C12", "extract-ok-on-broken-stream", "partial", fmt.Sprintf("the pipe broke after %d bytes, ExtractArchive returned a bundle, and it differs: %s", sc.PipeBreak, d))
+				out.Violate("C12", "extract-ok-on-broken-stream", "partial", fmt.Sprintf("the pipe broke after %d bytes, ExtractArchive returned a bundle, and it differs: %s", breakAt, d))
 			}
 			compareTreesAs(root, realDst, out, "archive extracted from a broken pipe", "C12")
 		}
